@@ -15,48 +15,20 @@ func init() {
 }
 
 func runC27(p *core.Prog, r *core.Report) {
-	r.Explain = "Decides only the reporting clause ('reports success exactly for the nodes that accepted the copy'); the convergence sentence quantifies over cycles and network behaviour and is not decidable statically. On all CFG paths of Replicator.HandleTask: (R1) SubmitSuccessfulReplication is called only after the send to that same node (remote replication, or the local put when the node is the local one) returned nil, with the node of the current iteration as argument; (R2) every such report is paired with exactly one decrement of the task's remaining quantity, and both happen only while the loop condition quantity > 0 holds, so the quantity cannot wrap and no more successes than requested are reported; (R3) the policer's result sinks count a node as holder only through that callback (shared with C26.R2). Not covered: convergence over repeated cycles."
+	r.Explain = "Decides only the reporting clause ('reports success exactly for the nodes that accepted the copy'); the convergence sentence quantifies over cycles and network behaviour and is not decidable statically. On all CFG paths of Replicator.HandleTask: (R1) SubmitSuccessfulReplication is called only after the send to that same node (remote replication, or the local put when the node is the local one) returned nil, with the node of the current iteration as argument; (R2) every such report is paired with exactly one decrement of the task's remaining quantity, and both happen only while the loop condition quantity > 0 holds, so the quantity cannot wrap and no more successes than requested are reported; (R3) the policer's result sinks count a node as holder only through that callback (shared with C26.R2); (R4) a necessary condition of convergence: every replication task the policer issues asks for at least one copy, provable from the branch conditions that led to it. Not covered: convergence over repeated cycles itself."
 	ht := p.Func("(*pkg/services/replicator.Replicator).HandleTask")
 	if ht == nil {
 		r.Fatalf("C27: HandleTask not found")
 		return
 	}
 	r1 := r.Rule("C27.R1", "success is reported only after the send to that node returned nil, for the current node", 2)
-	remote := core.Guard{Name: "remote-accepted", Match: func(s core.Site) bool { return strings.HasSuffix(s.Name, ").ReplicateObjectToNode") }, Comps: []core.Comp{{Result: -1, Kind: core.ErrNil}}}
-	local := core.Guard{Name: "stored-locally", Match: func(s core.Site) bool {
-		return strings.HasSuffix(s.Name, ").Put") && (strings.Contains(s.Name, "engine.StorageEngine") || strings.Contains(s.Name, "replicator."))
-	}, Comps: []core.Comp{{Result: -1, Kind: core.ErrNil}}}
+	replicatorReportsOnlyAcceptedCopies(p, r, r1)
 	isSubmit := func(in ssa.Instruction) bool {
 		c, ok := in.(ssa.CallInstruction)
 		return ok && strings.HasSuffix(core.CalleeName(c), "TaskResult).SubmitSuccessfulReplication")
 	}
-	n := core.CheckEffectsFn(p, r1, ht, core.EffectRule{Min: 2, Guards: []core.Guard{remote, local}, Derived: []core.Derived{{Name: "node-accepted-the-copy", Alts: [][]string{{"remote-accepted"}, {"stored-locally"}}}},
-		Need: func(string) []string { return []string{"node-accepted-the-copy"} }, Effect: func(_ *core.Prog, in ssa.Instruction) (string, bool) {
-			return "SubmitSuccessfulReplication", isSubmit(in)
-		}})
-	_ = n
-	// the reported node is task.nodes[i] of the current iteration, the same element the send used
-	for _, b := range ht.Blocks {
-		for _, in := range b.Instrs {
-			if !isSubmit(in) {
-				continue
-			}
-			arg := in.(ssa.CallInstruction).Common().Args[0]
-			u, ok := arg.(*ssa.UnOp)
-			good := false
-			if ok {
-				if ia, isIA := u.X.(*ssa.IndexAddr); isIA {
-					if _, path := core.AccessPath(ia.X); len(path) > 0 && path[len(path)-1] == "nodes" {
-						_, isPhi := ia.Index.(*ssa.Phi)
-						good = isPhi
-					}
-				}
-			}
-			r1.Check(good, core.FuncName(ht)+"#reported-node", p.InstrPos(in), "the reported node is task.nodes[i] of the current iteration", "the node reported as successful is not the current iteration's node")
-		}
-	}
 	// ---------------- R2 pairing with quantity--
-	r2 := r.Rule("C27.R2", "each success report is paired with one quantity decrement, under quantity > 0", 4)
+	r2 := r.Rule("C27.R2", "each success report is paired with one quantity decrement, under quantity > 0", 2)
 	isDec := func(in ssa.Instruction) bool {
 		v, ok := fieldStore(in, "(pkg/services/replicator.Task).quantity")
 		if !ok {
@@ -79,8 +51,8 @@ func runC27(p *core.Prog, r *core.Report) {
 			}
 		}
 	}
-	if nDec < 2 || nSub < 2 {
-		r.Fatalf("C27.R2: %d decrements / %d reports found, expected 2 each", nDec, nSub)
+	if nDec < 1 || nSub < 1 {
+		r.Fatalf("C27.R2: %d decrements / %d reports found, expected at least one each", nDec, nSub)
 	}
 	for _, d := range decs {
 		r2.Check(core.MustFollow(d, isSubmit), core.FuncName(ht)+"#decrement→report", p.InstrPos(d), "every decrement is followed by a success report before anything else can happen", "the remaining quantity is decreased on a path that does not report the success")
@@ -103,6 +75,88 @@ func runC27(p *core.Prog, r *core.Report) {
 			bo := st.Val.(*ssa.BinOp)
 			oc := core.NewOrderCtx(in)
 			r2.Check(oc.ProveLE(bo.Y, bo.X, 0), core.FuncName(ht)+"#quantity-1", p.InstrPos(in), "quantity > 0 holds at the decrement ("+oc.Facts()+")", "the quantity decrement is not dominated by quantity > 0: the unsigned counter can wrap and the task never ends")
+		}
+	}
+	// ---------------- R4 a detected deficit is never answered with a task for zero copies
+	r4 := r.Rule("C27.R4", "every replication task the policer issues asks for at least one copy (provable from the guards that led to it): a deficit answered with a zero-copy task is a fixed point of the policer", 3)
+	nTask := 0
+	for _, fn := range p.FuncsIn("pkg/services/policer") {
+		for _, s := range core.CallSites([]*ssa.Function{fn}, func(s core.Site) bool {
+			return s.Name == "(*pkg/services/policer.Policer).tryToReplicate" || s.Name == "(*pkg/services/replicator.Task).SetCopiesNumber"
+		}) {
+			a := s.Call.Common().Args
+			q := a[len(a)-1]
+			if s.Name == "(*pkg/services/policer.Policer).tryToReplicate" {
+				q = a[3]
+			}
+			if core.ParamIndex(fn, q) >= 0 {
+				continue // forwarded parameter: judged at the callers
+			}
+			nTask++
+			oc := core.NewOrderCtx(s.Call.(ssa.Instruction))
+			k, isK := intConstOf(q)
+			ok := isK && k >= 1 || !isK && oc.ProveLE(ssaZero(fn), q, -1)
+			r4.Check(ok, core.FuncName(fn)+"#copies>=1", p.InstrPos(s.Call), "the number of copies asked for is at least one", "the number of copies asked from the replicator cannot be shown to be at least one here: with zero the replicator does nothing, the deficit is detected again on every cycle and never repaired")
+		}
+	}
+	if nTask == 0 {
+		r.Fatalf("C27.R4: no replication task site found in the policer")
+	}
+}
+
+// replicatorReportsOnlyAcceptedCopies: shared by C27.R1 and C26.R6. In Replicator.HandleTask SubmitSuccessfulReplication is
+// called only after the send to that same node returned nil — the remote replication (directly or through a helper of the
+// package whose nil result is the sender's nil result) or the local put — with the current iteration's node as argument.
+func replicatorReportsOnlyAcceptedCopies(p *core.Prog, r *core.Report, r1 *core.RuleH) {
+	ht := p.Func("(*pkg/services/replicator.Replicator).HandleTask")
+	if ht == nil {
+		r.Fatalf("%s: HandleTask not found", r1.ID())
+		return
+	}
+	isSend := func(s core.Site) bool { return strings.HasSuffix(s.Name, ").ReplicateObjectToNode") }
+	remote := core.Guard{Name: "remote-accepted", Comps: []core.Comp{{Result: -1, Kind: core.ErrNil}}, Match: func(s core.Site) bool {
+		if isSend(s) {
+			return true
+		}
+		cal := core.StaticCallee(s.Call)
+		if cal == nil || cal.Blocks == nil || core.FuncPkg(cal) != core.FuncPkg(ht) {
+			return false
+		}
+		res := cal.Signature.Results()
+		if res.Len() != 1 || res.At(0).Type().String() != "error" || len(core.CallSites([]*ssa.Function{cal}, isSend)) == 0 {
+			return false
+		}
+		return core.SuccessHolds(p, cal, core.SuccessRule{ResultIdx: -1, Guards: []core.Guard{{Name: "sent", Match: isSend, Comps: []core.Comp{{Result: -1, Kind: core.ErrNil}}}}})
+	}}
+	local := core.Guard{Name: "stored-locally", Match: func(s core.Site) bool {
+		return strings.HasSuffix(s.Name, ").Put") && (strings.Contains(s.Name, "engine.StorageEngine") || strings.Contains(s.Name, "replicator."))
+	}, Comps: []core.Comp{{Result: -1, Kind: core.ErrNil}}}
+	isSubmit := func(in ssa.Instruction) bool {
+		c, ok := in.(ssa.CallInstruction)
+		return ok && strings.HasSuffix(core.CalleeName(c), "TaskResult).SubmitSuccessfulReplication")
+	}
+	core.CheckEffectsFn(p, r1, ht, core.EffectRule{Min: 1, Guards: []core.Guard{remote, local}, Derived: []core.Derived{{Name: "node-accepted-the-copy", Alts: [][]string{{"remote-accepted"}, {"stored-locally"}}}},
+		Need: func(string) []string { return []string{"node-accepted-the-copy"} }, Effect: func(_ *core.Prog, in ssa.Instruction) (string, bool) {
+			return "SubmitSuccessfulReplication", isSubmit(in)
+		}})
+	// the reported node is task.nodes[i] of the current iteration, the same element the send used
+	for _, b := range ht.Blocks {
+		for _, in := range b.Instrs {
+			if !isSubmit(in) {
+				continue
+			}
+			arg := in.(ssa.CallInstruction).Common().Args[0]
+			u, ok := arg.(*ssa.UnOp)
+			good := false
+			if ok {
+				if ia, isIA := u.X.(*ssa.IndexAddr); isIA {
+					if _, path := core.AccessPath(ia.X); len(path) > 0 && path[len(path)-1] == "nodes" {
+						_, isPhi := ia.Index.(*ssa.Phi)
+						good = isPhi
+					}
+				}
+			}
+			r1.Check(good, core.FuncName(ht)+"#reported-node", p.InstrPos(in), "the reported node is task.nodes[i] of the current iteration", "the node reported as successful is not the current iteration's node")
 		}
 	}
 }
